@@ -8,5 +8,9 @@ def run(ctx):
     # SeqFuns.tla (function, agreement of the families, laziness bound, sticky end)
     sessions(ctx, "faultfree", "faultfree", maxlen=ctx.pick(4, 6))
     sessions(ctx, "random", "random", n=ctx.pick(1500, 150000))
+    # Chan: several stream.Chan streams over one channel read concurrently (also with schedule perturbation)
+    from bubblecommon import bubble_tv
+    bubble_tv(ctx, "TestChanShare", "seq", "Trace_ChanShare", "tv_chan.cfg", "chan shared", {"n": ctx.pick(300, 3000)}, silent=False)
+    bubble_tv(ctx, "TestChanShare", "seq", "Trace_ChanShare", "tv_chan.cfg", "chan shared perturbed", {"n": ctx.pick(300, 3000)}, silent=False, perturb=True)
     ctx.assumptions += ["laziness counts source items, not End probes; same() is an equivalence (as documented)",
                         "Chan/Counter/Repeat/Empty sources: see C19 vectors; here Slice/FromIterator/scripted sources"]
